@@ -19,7 +19,7 @@ DOC = {
         'C13.R2': 'rehash: drop(original tx) dominates the recv loop; tasks capture a Sender clone; the loop leaves only on Err(recv); every received item is added; the throttle guard is acquired before spawn and dropped inside the task',
         'C13.R3': 'no HashMap/HashSet/DashMap iteration reachable from group_files/write_report (named exceptions)',
         'C13.R4': 'each FilePos-FileLen / FileLen-FileLen is dominated by a comparison of the same operands or its right operand is clamped by min(_, left)',
-        'C13.R7': 'giving the roots with --stdin instead of as arguments is equivalent: every consumer of the list of input paths (validate, root_paths for --isolate, the scan) uses the same source - GroupConfig::validate must not count `paths` alone when `stdin` is set, and the stdin list must not be read more than once',
+        'C13.R7': 'the standard input is read once: with --stdin the scan consumes the list, so the isolate roots (root_paths) and their validation use the positional arguments, and --isolate with roots only on stdin is refused with an explicit message',
         'C13.R6': 'no child process shares the standard input or output of fclones (the list of paths of --stdin, the report): every Command created in the library gets an explicit stdin and stdout before it is spawned',
         'C13.R5': 'termination: the semaphore blocking the hashing tasks never loses a wake-up (re-evaluates C19.R1-R4)',
     },
@@ -397,7 +397,15 @@ def r7(ctx):
             if pl:
                 fields |= set(place_fields(pl))
     uses_paths = 'paths' in fields
-    knows_stdin = 'stdin' in fields or bool(v.calls(r'GroupConfig::(input_paths|root_paths)$'))
-    ctx.check(not uses_paths or knows_stdin, rule, v.path + '|isolate-with-stdin', v.where(), 'validate counts the input paths from the source that is used',
-              'validate() compares the number of *positional* paths with the replication factor; with --stdin there are none, so `printf "d1\\nd2\\n" | fclones group --isolate --stdin` is always '
-              'refused ("number of input paths (0)") although `fclones group --isolate d1 d2` works; and root_paths() would read the stdin list a second time (nothing left for the scan)')
+    # the isolate roots: which source does root_paths() use?
+    rp = lib.body('config::GroupConfig::root_paths')
+    rp_stdin = False
+    if rp is not None:
+        rp_bodies = [rp] + [lib.body(x) for x in lib.closures_of(rp.path)]
+        rp_stdin = any(x.calls(r'GroupConfig::input_paths$|^std::io::stdin$') for x in rp_bodies)
+    knows_stdin = 'stdin' in fields
+    ok = uses_paths and not rp_stdin and knows_stdin
+    ctx.check(ok, rule, v.path + '|isolate-with-stdin', v.where(), 'validate and root_paths both take the isolate roots from the arguments; the stdin list is read once, by the scan; roots on stdin are refused explicitly',
+              ('root_paths() reads the input paths - with --stdin the standard input - although validate() counts the positional paths: `find a b -type f | fclones group --stdin --isolate a b` passes the '
+               'validation, the isolate roots consume the whole stdin list, the scan gets nothing, and the run ends successfully with an empty report' if rp_stdin else
+               'validate() does not look at `stdin`: `printf "d1\\nd2\\n" | fclones group --isolate --stdin` is refused with a message about 0 input paths'))
